@@ -151,3 +151,156 @@ theorem runStages_inputs : ∀ (l : List (StageName × Stage)) (a : Arr) (i : Na
     exact runStages_inputs rest _ i (by simpa using h)
 
 end Darsia.Pipeline
+
+namespace Darsia.Pipeline
+
+theorem val_div (o : DiffOpt) (x y m : Rat) (hm : 0 < m) : o.val (x / m) (y / m) = o.val x y / m := by
+  have key : ∀ z : Rat, (0 ≤ z / m ↔ 0 ≤ z) := fun z => by
+    constructor
+    · intro h
+      by_contra hn
+      have hz : z < 0 := lt_of_not_ge hn
+      have : z / m * m < 0 * m := by
+        rw [div_mul_cancel₀ z (ne_of_gt hm)]; simpa using hz
+      have h2 : z / m < 0 := lt_of_mul_lt_mul_right this (le_of_lt hm)
+      exact absurd h (not_le.mpr h2)
+    · intro h; exact div_nonneg h (le_of_lt hm)
+  cases o <;> simp only [DiffOpt.val, posPart, absR, ← sub_div]
+  · by_cases h : 0 ≤ x - y
+    · rw [if_pos h, if_pos ((key _).mpr h)]
+    · rw [if_neg h, if_neg (fun h' => h ((key _).mp h'))]; simp
+  · by_cases h : 0 ≤ y - x
+    · rw [if_pos h, if_pos ((key _).mpr h)]
+    · rw [if_neg h, if_neg (fun h' => h ((key _).mp h'))]; simp
+  · by_cases h : 0 ≤ x - y
+    · rw [if_pos h, if_pos ((key _).mpr h)]
+    · rw [if_neg h, if_neg (fun h' => h ((key _).mp h'))]; rw [neg_div]
+
+theorem val_bounds (o : DiffOpt) (x y m : Rat) (hx0 : 0 ≤ x) (hxm : x ≤ m) (hy0 : 0 ≤ y) (hym : y ≤ m) :
+    -m ≤ o.val x y ∧ o.val x y ≤ m ∧ (o ≠ .plain → 0 ≤ o.val x y) := by
+  cases o <;> simp only [DiffOpt.val, posPart, absR]
+  · refine ⟨?_, ?_, fun _ => ?_⟩ <;> split_ifs <;> linarith
+  · refine ⟨?_, ?_, fun _ => ?_⟩ <;> split_ifs <;> linarith
+  · refine ⟨?_, ?_, fun _ => ?_⟩ <;> split_ifs <;> linarith
+  · exact ⟨by linarith, by linarith, fun h => absurd rfl h⟩
+
+theorem pow_sub_one_pos (bits : Nat) (hb : 0 < bits) : (0 : Rat) < ((2 ^ bits - 1 : Nat) : Rat) := by
+  have : 2 ≤ 2 ^ bits := by
+    calc 2 = 2 ^ 1 := rfl
+      _ ≤ 2 ^ bits := Nat.pow_le_pow_right (by omega) hb
+  exact_mod_cast (by omega : 0 < 2 ^ bits - 1)
+
+/-- element-wise statement behind `diff_no_wrap` -/
+theorem val_promote (bits : Nat) (hb : 0 < bits) (p b : Nat) (hp : p < 2 ^ bits) (hq : b < 2 ^ bits) (o : DiffOpt) :
+    o.val (promote bits p) (promote bits b) = o.val (p : Rat) (b : Rat) / ((2 ^ bits - 1 : Nat) : Rat) ∧
+    -1 ≤ o.val (promote bits p) (promote bits b) ∧ o.val (promote bits p) (promote bits b) ≤ 1 ∧
+    (o ≠ .plain → 0 ≤ o.val (promote bits p) (promote bits b)) := by
+  have hm := pow_sub_one_pos bits hb
+  have e := val_div o (p : Rat) (b : Rat) _ hm
+  have hpM : (p : Rat) ≤ ((2 ^ bits - 1 : Nat) : Rat) := by exact_mod_cast (by omega : p ≤ 2 ^ bits - 1)
+  have hbM : (b : Rat) ≤ ((2 ^ bits - 1 : Nat) : Rat) := by exact_mod_cast (by omega : b ≤ 2 ^ bits - 1)
+  obtain ⟨l, u, nn⟩ := val_bounds o (p : Rat) (b : Rat) _ (by exact_mod_cast Nat.zero_le p) hpM
+    (by exact_mod_cast Nat.zero_le b) hbM
+  unfold promote
+  rw [e]
+  refine ⟨rfl, ?_, ?_, fun h => div_nonneg (nn h) (le_of_lt hm)⟩
+  · rw [le_div_iff₀ hm]; linarith
+  · rw [div_le_iff₀ hm]; linarith
+
+end Darsia.Pipeline
+
+namespace Darsia.Pipeline
+
+def stepMax (thr s : List Rat) : List Rat := List.zipWith (fun t x => if t ≤ x then x else t) thr s
+
+theorem stepMax_get {thr s : List Rat} {i : Nat} {r : Rat} (h : (stepMax thr s)[i]? = some r) :
+    ∃ t x, thr[i]? = some t ∧ s[i]? = some x ∧ r = (if t ≤ x then x else t) := by
+  unfold stepMax at h
+  rw [List.getElem?_zipWith] at h
+  cases ht : thr[i]? with
+  | none => simp [ht] at h
+  | some t =>
+    cases hx : s[i]? with
+    | none => simp [ht, hx] at h
+    | some x =>
+      simp [ht, hx] at h
+      exact ⟨t, x, rfl, rfl, h.symm⟩
+
+theorem foldl_stepMax_mono : ∀ (signals : List (List Rat)) (acc : List Rat) (i : Nat) (r : Rat),
+    (signals.foldl stepMax acc)[i]? = some r → ∃ a0, acc[i]? = some a0 ∧ a0 ≤ r
+  | [], acc, i, r, h => ⟨r, h, le_refl _⟩
+  | s :: rest, acc, i, r, h => by
+    simp only [List.foldl_cons] at h
+    obtain ⟨m, hm, hle⟩ := foldl_stepMax_mono rest _ i r h
+    obtain ⟨t, x, ht, _, rfl⟩ := stepMax_get hm
+    refine ⟨t, ht, le_trans ?_ hle⟩
+    split_ifs with hc
+    · exact hc
+    · exact le_refl _
+
+theorem foldl_stepMax_ge : ∀ (signals : List (List Rat)) (acc : List Rat) (s : List Rat), s ∈ signals →
+    ∀ (i : Nat) (r x : Rat), (signals.foldl stepMax acc)[i]? = some r → s[i]? = some x → x ≤ r
+  | [], _, _, hs, _, _, _, _, _ => by simp at hs
+  | s0 :: rest, acc, s, hs, i, r, x, h, hx => by
+    simp only [List.foldl_cons] at h
+    rcases List.mem_cons.mp hs with rfl | hin
+    · obtain ⟨m, hm, hle⟩ := foldl_stepMax_mono rest _ i r h
+      obtain ⟨t, x', _, hx', rfl⟩ := stepMax_get hm
+      rw [hx] at hx'; cases hx'
+      refine le_trans ?_ hle
+      split_ifs with hc
+      · exact le_refl _
+      · exact le_of_lt (lt_of_not_ge hc)
+    · exact foldl_stepMax_ge rest _ s hin i r x h hx
+
+/-- the accumulated threshold dominates every reduced extra-baseline signal, is non-negative, ... -/
+theorem accumulate_ge (n : Nat) (signals : List (List Rat)) (s : List Rat) (hs : s ∈ signals) (i : Nat) (r x : Rat)
+    (h : (accumulate n signals)[i]? = some r) (hx : s[i]? = some x) : x ≤ r :=
+  foldl_stepMax_ge signals _ s hs i r x h hx
+
+theorem accumulate_nonneg (n : Nat) (signals : List (List Rat)) (i : Nat) (r : Rat)
+    (h : (accumulate n signals)[i]? = some r) : 0 ≤ r := by
+  obtain ⟨a0, ha, hle⟩ := foldl_stepMax_mono signals _ i r h
+  have : a0 = 0 := by
+    rw [List.getElem?_replicate] at ha
+    split at ha
+    · cases ha; rfl
+    · contradiction
+  rw [this] at hle; exact hle
+
+/-- ... and is attained: each entry is 0 or the entry of one of the signals (it is the running maximum) -/
+theorem foldl_stepMax_attained : ∀ (signals : List (List Rat)) (acc : List Rat) (i : Nat) (r : Rat),
+    (signals.foldl stepMax acc)[i]? = some r → acc[i]? = some r ∨ ∃ s ∈ signals, s[i]? = some r
+  | [], _, _, _, h => Or.inl h
+  | s0 :: rest, acc, i, r, h => by
+    simp only [List.foldl_cons] at h
+    rcases foldl_stepMax_attained rest _ i r h with hm | ⟨s, hs, hsr⟩
+    · obtain ⟨t, x, ht, hx, e⟩ := stepMax_get hm
+      split_ifs at e with hc
+      · exact Or.inr ⟨s0, by simp, by rw [hx, e]⟩
+      · exact Or.inl (by rw [ht, e])
+    · exact Or.inr ⟨s, by simp [hs], hsr⟩
+
+/-- `find_cleaning_filter` is this accumulation over the reduced differences of the extra baselines -/
+theorem cleaningFilter_eq_accumulate (c : Config) (base : Arr) (e : Arr) (extras : List Arr) :
+    cleaningFilter c base (e :: extras) =
+      some (accumulate base.px.length ((e :: extras).map fun b =>
+        (applyOpt c.reduction (diff c.opt base b)).px.map (·.headD 0))) := by
+  simp only [cleaningFilter, accumulate, List.foldl_map]
+  congr 1
+  have : ∀ (l : List Arr) (acc : List Rat),
+      List.foldl (fun thr b => maxWith thr (applyOpt c.reduction (diff c.opt base b))) acc l =
+      List.foldl (fun thr b => List.zipWith (fun t x => if t ≤ x then x else t) thr
+        ((applyOpt c.reduction (diff c.opt base b)).px.map (·.headD 0))) acc l := by
+    intro l
+    induction l with
+    | nil => intro acc; rfl
+    | cons b l ih =>
+      intro acc
+      simp only [List.foldl_cons]
+      rw [ih]
+      congr 1
+      simp only [maxWith, List.zipWith_map_right]
+  exact this _ _
+
+end Darsia.Pipeline
